@@ -315,6 +315,7 @@ pub fn run(ctx: &Ctx) -> Result<Run, String> {
         let mut st = crate::core::report::Stats::new();
         super::sigshape::ctap2_shapes(ctx.tier, &mut st);
         super::sigshape::relabelled_rp(&mut st);
+        super::sigshape::odd_scalars(&mut st);
         st.case(&"after-conversion-panic", true, "after-user-code-panic");
         for (k, d) in super::vault::after_conversion_panic(1) {
             st.finding(Finding::new(format!("after-panic/kind={k}"), d, json!({"after_conversion_panic": 1})));
@@ -325,7 +326,7 @@ pub fn run(ctx: &Ctx) -> Result<Run, String> {
     }
     let mut run = Run::from_stats(
         "model_checking",
-        "explicit-state BFS over histories: register(rp in 2, user in 2) and authenticate(origin/RP in 4 incl. a sub-domain origin of the same RP and an RP without credentials, allow list in {absent, empty, [own], [unknown, own], [unknown], [credential of another RP], [unknown id with an unknown credential type], [the base64url text of the own id as bytes], [its hex text]}, userVerification in {required, preferred, discouraged with and without the user verifying anyway}, client-data mode in 3) plus 10 challenges on two base assertions, from the empty and two seeded stores, on a real Client over the contract store; every assertion is verified by an independent relying party (ECDSA verify under the key derived from the stored scalar, client data, rpIdHash, flags, user handle). Plus the instance differential: the complete tree of histories to depth 3 (thorough 4) over {assertion with the seeded / no / an unknown / the first created credential, registration rk on/off, getInfo, a registration and an assertion dropped while the user step is pending, an assertion with a credential whose key cannot sign (refused late), an assertion whose counter write-back the store refuses, an assertion during which the user-validation method / the store's lookup panics (the unwind caught, the instance used on)} on ONE long-lived Authenticator against fresh Authenticators per operation, on the contract store, Arc<Mutex<MemoryStore>> and Arc<Mutex<Option<Passkey>>> (results and final store must agree), and the same for ONE long-lived Client against fresh Clients over {registration rk/credProps on two origins, authentication with the seeded / no / an unknown / the first created credential, with and without prf, a request refused for its RP id}. Extra client data under every identifier-like literal of the client and types sources and the member names of related specifications (payment, topOrigin, tokenBinding, ...), and a caller-supplied ClientData whose extra data differs at every call: type, challenge, origin and signature as always. State shared between instances: on one fresh thread, three authenticators whose stores hold the SAME credential id with three different keys (two RPs) assert in turn, twice, and one key handle is U2F-registered, used, re-registered and used again; every signature must verify under the key its own store holds. A store whose items spell their rp_id differently from the RP ID they are found under (empty, upper case, trailing dot, a URL, another host): rpIdHash is that of the request's RP ID and the signature verifies. Repetition histories (one of six granted / denied / dropped ceremonies 8, 9, 17, 33 times in a row on one authenticator, then each as a probe). Signature shapes: for 3 fixed stored keys x counter {absent, 5} the smallest client-data hash whose RFC 6979 signature falls into each DER shape class (r padded / not / shorter than 32 bytes x s full / shorter) is searched with the harness's own signer and asserted - success, byte-equality with the predicted signature and verification demanded. States are deduplicated on (RP, user handle, counter) per record in creation order; every transition is a distinct non-trivial real ceremony",
+        "explicit-state BFS over histories: register(rp in 2, user in 2) and authenticate(origin/RP in 4 incl. a sub-domain origin of the same RP and an RP without credentials, allow list in {absent, empty, [own], [unknown, own], [unknown], [credential of another RP], [unknown id with an unknown credential type], [the base64url text of the own id as bytes], [its hex text]}, userVerification in {required, preferred, discouraged with and without the user verifying anyway}, client-data mode in 3) plus 10 challenges on two base assertions, from the empty and two seeded stores, on a real Client over the contract store; every assertion is verified by an independent relying party (ECDSA verify under the key derived from the stored scalar, client data, rpIdHash, flags, user handle). Plus the instance differential: the complete tree of histories to depth 3 (thorough 4) over {assertion with the seeded / no / an unknown / the first created credential, registration rk on/off, getInfo, a registration and an assertion dropped while the user step is pending, an assertion with a credential whose key cannot sign (refused late), an assertion whose counter write-back the store refuses, an assertion during which the user-validation method / the store's lookup panics (the unwind caught, the instance used on)} on ONE long-lived Authenticator against fresh Authenticators per operation, on the contract store, Arc<Mutex<MemoryStore>> and Arc<Mutex<Option<Passkey>>> (results and final store must agree), and the same for ONE long-lived Client against fresh Clients over {registration rk/credProps on two origins, authentication with the seeded / no / an unknown / the first created credential, with and without prf, a request refused for its RP id}. Extra client data under every identifier-like literal of the client and types sources and the member names of related specifications (payment, topOrigin, tokenBinding, ...), and a caller-supplied ClientData whose extra data differs at every call: type, challenge, origin and signature as always. State shared between instances: on one fresh thread, three authenticators whose stores hold the SAME credential id with three different keys (two RPs) assert in turn, twice, and one key handle is U2F-registered, used, re-registered and used again; every signature must verify under the key its own store holds. Stored private scalars in eight other encodings than the library's 32 bytes (leading / trailing zero bytes, 31, 64, 0 bytes): an assertion that is returned verifies under the credential's public key. A store whose items spell their rp_id differently from the RP ID they are found under (empty, upper case, trailing dot, a URL, another host): rpIdHash is that of the request's RP ID and the signature verifies. Repetition histories (one of six granted / denied / dropped ceremonies 8, 9, 17, 33 times in a row on one authenticator, then each as a probe). Signature shapes: for 3 fixed stored keys x counter {absent, 5} the smallest client-data hash whose RFC 6979 signature falls into each DER shape class (r padded / not / shorter than 32 bytes x s full / shorter) is searched with the harness's own signer and asserted - success, byte-equality with the predicted signature and verification demanded. States are deduplicated on (RP, user handle, counter) per record in creation order; every transition is a distinct non-trivial real ceremony",
         true,
         g.stats,
     );
